@@ -36,6 +36,10 @@ Definition can_be_alias (t : token) : bool := is_identifier t || is_nonreserved 
 Definition is_join_keyword (t : token) : bool :=
   isT t TyJoin || isT t TyInner || isT t TyLeft || isT t TyRight || isT t TyFull || isT t TyCross || isT t TyNatural.
 Definition is_setop (t : token) : bool := isT t TyUnion || isT t TyExcept || isT t TyIntersect.
+(* what may follow the select list of a SELECT without FROM besides end / set operator (since /repo 1ab0f0f) *)
+Definition is_clause_start (t : token) : bool :=
+  isT t TyWhere || isT t TyGroup || isT t TyHaving || isT t TyOrder || isT t TyLimit || isT t TyOffset
+  || isT t TyFetch || isT t TyFor || isT t TyOn || isT t TyReturning.
 Definition is_gident (e : gexpr) : bool := match e with GIdent _ _ => true | _ => false end.
 
 (* fmt.Sscanf(lit, "%d", &v): optional sign, then the longest digit prefix (0 if there is none) *)
@@ -337,7 +341,7 @@ Section Stmt.
       else
         do (cols, ts) <- select_items (S (length ts)) d [] ts;
         if negb (isT (cur ts) TyFrom) && negb (isT (cur ts) TyEOF) && negb (isT (cur ts) TySemicolon)
-           && negb (isT (cur ts) TyRParen) && negb (is_setop (cur ts)) then Err EExpected
+           && negb (isT (cur ts) TyRParen) && negb (is_setop (cur ts)) && negb (is_clause_start (cur ts)) then Err EExpected
         else
           do (fj, ts) <- ps_from d ts;
           do (wh, ts) <- ps_where d ts;
